@@ -81,6 +81,31 @@ func genC12(t *rapid.T) c12Case {
 	}
 	genScale(t, gr, 16)
 	c.Entry = rapid.SampledFrom([]int{0, 0, 1, 2, 3}).Draw(t, "entry")
+	// one parent with more than a hundred children that all fail a nested validation: one trace with that many
+	// sub-results, each of them a complete result
+	if rapid.IntRange(0, 9).Draw(t, "manyChildren") == 0 {
+		parent := gr.Add(classTest)
+		k := rapid.SampledFrom([]int{99, 100, 101, 130, 260}).Draw(t, "children")
+		for i := 0; i < k; i++ {
+			ch := gr.Add(classOther)
+			gr.Nodes[ch].AddVal(m.NS+"note", m.LV(m.S(fmt.Sprintf("child %d", i))))
+			gr.Nodes[parent].AddVal(m.NS+"kids", m.NV(ch))
+		}
+		vm := m.YMap()
+		vm.Set("targetClass", m.YStr("ex.Test"))
+		kind := pick(t, []string{"nested", "atLeast", "atMost"}, "kidsKind")
+		inner := m.YMap().Set("propertyConstraints", m.YMap().Set("ex.absent", m.YMap().Set("minCount", m.YInt(1))))
+		if kind == "nested" {
+			vm.Set("propertyConstraints", m.YMap().Set("ex.kids", m.YMap().Set("nested", inner)))
+		} else if kind == "atLeast" {
+			vm.Set("propertyConstraints", m.YMap().Set("ex.kids", m.YMap().Set("atLeast", m.YMap().Set("count", m.YInt(1)).Set("validation", inner))))
+		} else {
+			passing := m.YMap().Set("propertyConstraints", m.YMap().Set("ex.note", m.YMap().Set("minCount", m.YInt(1))))
+			vm.Set("propertyConstraints", m.YMap().Set("ex.kids", m.YMap().Set("atMost", m.YMap().Set("count", m.YInt(1)).Set("validation", passing))))
+		}
+		c.ProfileText = appendValidation(c.ProfileText, "vkids", vm)
+		c.Shapes = append(c.Shapes, "vkids")
+	}
 	// mass failure: a validation that every one of some thousand filler nodes fails - a report of a megabyte or more
 	if rapid.IntRange(0, 11).Draw(t, "massFailure") == 0 {
 		gr.Bulk, gr.BulkBlank = rapid.SampledFrom([]int{600, 1100, 1500}).Draw(t, "massNodes"), false
